@@ -1,0 +1,24 @@
+//go:build verif
+
+package serveruser
+
+import "sync/atomic"
+
+var verifAfterAttemptFn atomic.Pointer[func()]
+
+// VerifSetAfterAttempt installs (or removes, with nil) a callback that runs in
+// discoverUser after one generation has been tried and before the check that
+// the generation is still current. It only widens that existing window.
+func VerifSetAfterAttempt(fn func()) {
+	if fn == nil {
+		verifAfterAttemptFn.Store(nil)
+		return
+	}
+	verifAfterAttemptFn.Store(&fn)
+}
+
+func verifAfterAttempt() {
+	if p := verifAfterAttemptFn.Load(); p != nil {
+		(*p)()
+	}
+}
